@@ -314,6 +314,9 @@ void h_repair_step(void)
 	setup_failed();
 	VERIF_ASSUME(IN.failed_count >= 1);
 	VERIF_ASSUME(IN.level >= 1 && IN.level <= REPAIR_LEVEL_MAX);
+#ifdef REPAIR_LEVEL_IS
+	VERIF_ASSUME(IN.level == REPAIR_LEVEL_IS); /* concrete per obligation in the thorough tier: keeps each query within memory */
+#endif
 	ST.level = IN.level;
 	for (j = 0; j < NFAIL; ++j) {
 		map[j] = j;
